@@ -542,9 +542,31 @@ def gen_dynamic(rng, *, faults=False, always_p=0.5, tocks="dyadic"):
             if not pool:
                 continue
             ids = [rng.choice(pool) for _ in range(rng.randint(1, 2))]
-            if rng.random() < 0.25:
+            r = rng.random()
+            if r < 0.25:
                 ids.append(caller)
+            elif r < 0.4:
+                ids = [caller]            # pure self-removal: the caller must keep running until it returns
             script[pc]["es"].append(["rem", target, ids])
+    # a doer that removes itself keeps running (by design) although it is no longer listed; extending it
+    # again while it is still alive would start a second generator over the same doer object — outside
+    # the properties' quantifier (and the model's class): self-removers never appear in an extend list
+    selfrem = set()
+    for i, d in defs.items():
+        if d["kind"] == "nest":
+            continue
+        for st in d["script"]:
+            for e in st["es"]:
+                if e[0] == "rem" and int(i) in e[2]:
+                    selfrem.add(int(i))
+    for d in defs.values():
+        if d["kind"] == "nest":
+            continue
+        for st in d["script"]:
+            for e in st["es"]:
+                if e[0] == "ext":
+                    e[2][:] = [x for x in e[2] if x not in selfrem]
+            st["es"][:] = [e for e in st["es"] if e[2]]
     return p
 
 
